@@ -5,7 +5,7 @@ import socket as real_socket
 from .. import framework as F, ref_ws, world as W
 from ..ref_ws import SFrame, TEXT, CLOSE
 
-OUTCOMES = ['resolve-fail', 'refused', 'rejected', 'drop-before-ready', 'drop-after-ready', 'graceful', 'protocol-error']
+OUTCOMES = ['resolve-fail', 'refused', 'request-reset', 'rejected', 'drop-before-ready', 'drop-after-ready', 'graceful', 'protocol-error']
 READY = {'drop-after-ready', 'graceful', 'protocol-error'}
 SETTINGS = [(5, 30), (0, 0), (1, 1), (0, 100), (2, 3.5)]
 DRAWS = [0.0, 0.5, 1.0 - 2.0 ** -53]
@@ -46,6 +46,9 @@ def make_world(outcomes, draws, tail='resolve-fail'):
     def new_socket(family):
         s = orig_new(family)
         s.conn.attempt = state['attempt']
+        if outcome(state['attempt']) == 'request-reset':
+            import errno
+            world.fail_sendall.append(OSError(errno.ECONNRESET, 'Connection reset by peer'))     # the upgrade request cannot be written
         return s
 
     def connect_verdict(conn, sa):
@@ -104,7 +107,7 @@ class C16(F.Check):
     expect_sites = ('ready-reset', 'growth', 'cap', 'exit', 'no-exit', 'long-chain', 'passthrough')
 
     def rule(self, tier):
-        return ('outcome sequences of length <= %d over 7 outcomes, constant draw per run (3 values)%s, 5 (min,max) settings, 2 connect parameter sets, '
+        return ('outcome sequences of length <= %d over 8 outcomes, constant draw per run (3 values)%s, 5 (min,max) settings, 2 connect parameter sets, '
                 'exit at every back-off index or never (2 further attempts are then observed). distinct = distinct (sequence, setting, draws, exit)'
                 % (4 if tier == 'thorough' else 3, ' and every per-back-off draw combination for length <= 3' if tier == 'thorough' else ''))
 
